@@ -104,7 +104,7 @@ class ParProject:
     def close(self):
         self.pr.close()
 
-    def run(self, argv, jobs=None, log=True, keep_going=False, timeout=90, extra_env=None, pass_fds=()):
+    def run(self, argv, jobs=None, log=True, keep_going=False, timeout=90, extra_env=None, pass_fds=(), stress_rng=None):
         for p in (self.worklog, self.toktrace):
             if os.path.exists(p):
                 os.unlink(p)
@@ -125,15 +125,28 @@ class ParProject:
         p = subprocess.Popen(cmd, cwd=self.root, env=env, stdin=subprocess.DEVNULL, stdout=subprocess.PIPE,
                              stderr=subprocess.PIPE, start_new_session=True, pass_fds=pass_fds)
         hung = None
+        stop = [False]
+        th = None
+        if stress_rng is not None:
+            import threading
+            th = threading.Thread(target=perturb, args=(stop, p.pid, stress_rng))
+            th.start()
         try:
             out, err = p.communicate(timeout=timeout)
         except subprocess.TimeoutExpired:
+            stop[0] = True
+            if th:
+                th.join()
+                th = None
             hung = snapshot(p.pid)
             try:
                 os.killpg(p.pid, signal.SIGKILL)
             except ProcessLookupError:
                 pass
             out, err = p.communicate()
+        stop[0] = True
+        if th:
+            th.join()
         try:
             os.killpg(p.pid, signal.SIGKILL)
         except (ProcessLookupError, PermissionError):
@@ -166,6 +179,37 @@ class ParProject:
         args = [exe, "toktrace", self.toktrace] + ([str(inherited)] if inherited >= 0 else [])
         p = subprocess.run(args, stdout=subprocess.PIPE, timeout=120)
         return p.stdout.decode().strip()
+
+
+def perturb(stop, sid, r):
+    """Randomly SIGSTOP/SIGCONT redo processes of the session for a few tens of
+    milliseconds: while a process is stopped, several of the events it waits for
+    (child exits, token arrivals, lock hand-overs) become ready together, so the
+    wake-up that follows handles a coincidence the normal timing rarely gives."""
+    while not stop[0]:
+        time.sleep(r.uniform(0.005, 0.04))
+        try:
+            out = subprocess.run(["ps", "-o", "pid=,args=", "-s", str(sid)], stdout=subprocess.PIPE, timeout=5).stdout.decode()
+        except Exception:
+            continue
+        pids = []
+        for l in out.split("\n"):
+            f = l.split(None, 1)
+            if len(f) == 2 and f[1].startswith("redo") and not f[1].startswith("redo-log"):
+                pids.append(int(f[0]))
+        if not pids:
+            continue
+        victim = r.choice(pids)
+        try:
+            os.kill(victim, signal.SIGSTOP)
+            time.sleep(r.uniform(0.02, 0.1))
+        except ProcessLookupError:
+            continue
+        finally:
+            try:
+                os.kill(victim, signal.SIGCONT)
+            except ProcessLookupError:
+                pass
 
 
 def snapshot(pid):
